@@ -17,12 +17,24 @@ struct Twins {
     nat: Run,
 }
 
+thread_local! {
+    /// toll and spread ratios of the twins symbolic in [0, 10%] (each may be zero on its own)
+    static SYM_FEES: std::cell::Cell<bool> = std::cell::Cell::new(false);
+}
+
 fn twins(fees: bool, partial: bool) -> Twins {
+    let symf = SYM_FEES.with(|c| c.get());
+    let d0 = pow10(6);
+    // (the same variables in both deployments)
+    let sym = if fees && symf { Some((crate::sx::var("toll", 0, d0 / 10, d0 / 100), crate::sx::var("spread", 0, d0 / 10, d0 / 50))) } else { None };
     let mk = |native: bool| {
         let mut cfg = Cfg::base(native, 6);
         let d = cfg.d();
         cfg.init_ratio = Uint128::new(d / 10);
-        if fees {
+        if let Some((t, sp)) = sym {
+            cfg.toll = t;
+            cfg.spread = sp;
+        } else if fees {
             cfg.toll = Uint128::new(d / 100);
             cfg.spread = Uint128::new(d / 50);
         }
@@ -122,6 +134,15 @@ impl Twins {
 /// emptied (a transfer to a third party, in both deployments) before the close; 7-10 a funding
 /// settlement with a symbolic oracle price, then close / opposite order / withdraw, increase and
 /// close / liquidation; 11 partial closes under a tight price band
+fn lockstep_symfees(kind: u8, side: Side, seed: u64) -> impl Fn() {
+    let f = lockstep(kind, side, true, seed);
+    move || {
+        SYM_FEES.with(|c| c.set(true));
+        f();
+        SYM_FEES.with(|c| c.set(false));
+    }
+}
+
 fn lockstep(kind: u8, side: Side, fees: bool, seed: u64) -> impl Fn() {
     move || {
         let mut t = twins(fees, (kind == 5 && seed % 2 == 1) || kind == 11);
@@ -348,6 +369,12 @@ pub fn scenarios(seed: u64) -> Vec<Scenario> {
                 let tier = if side == Side::Sell && !fees { Tier::Thorough } else { Tier::Quick };
                 v.push(sc("C13", tier, &format!("c13.{}.{}{}", kn, sn, if fees { ".fees" } else { "" }), d, 500, 150, lockstep(k, side.clone(), fees, seed)));
             }
+        }
+    }
+    for (k, kn) in [(0u8, "open"), (2, "opposite"), (3, "close"), (7, "fund.close")] {
+        for (side, sn) in [(Side::Buy, "long"), (Side::Sell, "short")] {
+            let tier = if side == Side::Sell && k != 3 { Tier::Thorough } else { Tier::Quick };
+            v.push(sc("C13", tier, &format!("c13.{}.{}.symfees", kn, sn), "as above with toll and spread ratios symbolic in [0, 10%] (either may be zero on its own)", 500, 150, lockstep_symfees(k, side.clone(), seed)));
         }
     }
     let dg = "twin deployments, pseudo-random lock-step history of 4-8 operations (opens of both sides and several leverages, closes incl. partial ones under a band, deposits, withdrawals, liquidation attempts, funding settlements with oracle moves) with per-history fees / partial ratio / liquidation fee / price band; concrete except the last operation";
